@@ -638,6 +638,7 @@ func (e *Engine) mapFind(m *mapv, k value) int {
 }
 
 func (e *Engine) mapSet(m *mapv, k, v value) {
+	e.raceAccess(m, true)
 	i := e.mapFind(m, k)
 	e.touchMap(m)
 	if i >= 0 {
@@ -649,6 +650,7 @@ func (e *Engine) mapSet(m *mapv, k, v value) {
 }
 
 func (e *Engine) mapDelete(m *mapv, k value) {
+	e.raceAccess(m, true)
 	if i := e.mapFind(m, k); i >= 0 {
 		e.touchMap(m)
 		m.keys = append(append([]value{}, m.keys[:i]...), m.keys[i+1:]...)
@@ -659,6 +661,7 @@ func (e *Engine) mapDelete(m *mapv, k value) {
 func (e *Engine) lookup(instr *ssa.Lookup, x, idx value) value {
 	switch x := x.(type) {
 	case *mapv:
+		e.raceAccess(x, false)
 		vt := instr.X.Type().Underlying().(*types.Map).Elem()
 		var v value
 		ok := false
@@ -746,6 +749,7 @@ func (e *Engine) rangeIter(x value, t types.Type) iter {
 		if x == nil {
 			return &mapIter{}
 		}
+		e.raceAccess(x, false)
 		return &mapIter{m: x, k: append([]value{}, x.keys...), v: append([]value{}, x.vals...)}
 	case string, *symstr:
 		return &strIter{e: e, b: strBytes(x)}
